@@ -121,3 +121,100 @@ Theorem C17_tt_to_qtt_denote_matrix_svd :
   exists Z, tt_to_qtt OR (fun k => msvd_total (eigh k) (argsort k) rcap) Y = Ok Z /\ length Z = length Y * S q /\
     chain 1 Z 1 /\ Forall (fun Q => cn Q = 2) Z /\ get OR Z (flat_map (bits_le (S q)) idx) = get OR Y idx.
 Proof. exact tt_to_qtt_denote_svd. Qed.
+
+(* ------------------------------------------------------------------------------------------------------------
+   The "within the requested accuracy" clause for ONE TT-core with genuinely truncating factorisations
+   (Proofs/QttErrP.v, Proofs/QttErrRP.v).
+     core_err2 K G Qs d       = sum over (a, m, b) of (G[a, m, b] - (entry of the chain Qs at the little-endian binary
+                                digits of m, open boundary indices a, b))^2
+     cdist2 K G M             = sum over (a, m, b) of (G[a, m, b] - M[a, m, b])^2
+     calls_all K P msvd G d   = P (argument, returned U, returned V) at each of the d factorisation calls that the run
+                                on G makes: call 0 on the unfolding of G, call k on np.hstack([A[:As], A[As:]]) of the
+                                previous U
+     calls_res K msvd G d     = sum over those d calls of the squared Frobenius residual |A_k - U_k V_k|^2
+     trunc_ok K A U V         = shapes agree, V V^T = I (orthonormal rows), U = A V^T.
+   Any commutative ring: squared error = sum of the squared residuals (Pythagoras: Y[0] is multiplied by V0 after the
+   loop, but V0 and every later V have orthonormal rows, so they are isometries on row spaces). *)
+From TV Require Import Lin.BigSum Proofs.FrobP Proofs.TruncP2 Proofs.QttErrP Proofs.QttErrRP Proofs.QttErrEx.
+
+Theorem C17_core_tt_to_qtt_error : forall T (K : ops T), rng K ->
+  forall (msvd : nat -> mat T -> mat T * mat T) (G : core T) k Qs,
+  cn G = 2 ^ S k -> 0 < cr1 G -> calls_all K (trunc_ok K) msvd G (S k) -> core_tt_to_qtt K msvd G = Ok Qs ->
+  length Qs = S k /\ chain (cr1 G) Qs (cr2 G) /\ Forall (fun Q => cn Q = 2) Qs /\
+  core_err2 K G Qs (S k) = calls_res K msvd G (S k).
+Proof. intros T K Rth msvd G k Qs. exact (core_tt_to_qtt_err K Rth msvd G k Qs). Qed.
+
+(* the same distance measured against the single core that core_qtt_to_tt rebuilds from the chain *)
+Theorem C17_core_err2_merged : forall T (K : ops T), rng K -> forall (G : core T) Qs d,
+  chain (cr1 G) Qs (cr2 G) -> Forall (fun Q => cn Q = 2) Qs -> length Qs = S d -> cn G = 2 ^ S d ->
+  core_qtt_to_tt K Qs = Ok (merged K Qs) /\ cdist2 K G (merged K Qs) = core_err2 K G Qs (S d).
+Proof. intros T K Rth G Qs d. exact (core_err2_merged_ok K Rth G Qs d). Qed.
+
+(* on a core of mode size 2^(k+1) the run never fails, whatever the factorisation returns *)
+Theorem C17_core_tt_to_qtt_ok : forall T (K : ops T) (msvd : nat -> mat T -> mat T * mat T) (G : core T) k,
+  cn G = 2 ^ S k -> exists Qs, core_tt_to_qtt K msvd G = Ok Qs.
+Proof. intros T K msvd G k. exact (core_tt_to_qtt_ok K msvd G k). Qed.
+
+(* at the reals, under the step contract of property C02 (fact_ok: rows of V pairwise orthogonal and of norm 1 or 0,
+   U V = A V^T V -- weaker than trunc_ok: a retained zero singular value gives a zero row) at every call the run makes:
+   squared error <= sum of the squared residuals *)
+Theorem C17_core_tt_to_qtt_error_le_R : forall (msvd : nat -> mat R -> mat R * mat R) (G : core R) k Qs,
+  cn G = 2 ^ S k -> 0 < cr1 G -> calls_all OR (fact_ok OR) msvd G (S k) -> core_tt_to_qtt OR msvd G = Ok Qs ->
+  length Qs = S k /\ chain (cr1 G) Qs (cr2 G) /\ Forall (fun Q => cn Q = 2) Qs /\
+  (core_err2 OR G Qs (S k) <= calls_res OR msvd G (S k))%R /\
+  (cdist2 OR G (merged OR Qs) <= calls_res OR msvd G (S k))%R.
+Proof. exact core_tt_to_qtt_err_le. Qed.
+
+(* every residual <= e^2  ==>  Frobenius distance between G and the chain / the merged core <= sqrt(d) e, d = k+1 *)
+Theorem C17_core_tt_to_qtt_error_R : forall (msvd : nat -> mat R -> mat R * mat R) (G : core R) k Qs (e : R),
+  (0 <= e)%R -> cn G = 2 ^ S k -> 0 < cr1 G ->
+  calls_all OR (fun M U V => fact_ok OR M U V /\ (res2 OR M U V <= e * e)%R) msvd G (S k) ->
+  core_tt_to_qtt OR msvd G = Ok Qs ->
+  length Qs = S k /\ chain (cr1 G) Qs (cr2 G) /\ Forall (fun Q => cn Q = 2) Qs /\
+  (core_err2 OR G Qs (S k) <= INR (S k) * (e * e))%R /\
+  (sqrt (core_err2 OR G Qs (S k)) <= sqrt (INR (S k)) * e)%R /\
+  (sqrt (cdist2 OR G (merged OR Qs)) <= sqrt (INR (S k)) * e)%R.
+Proof. exact core_tt_to_qtt_bound. Qed.
+(* ... the same under the projection contract trunc_ok *)
+Theorem C17_core_tt_to_qtt_error_proj_R : forall (msvd : nat -> mat R -> mat R * mat R) (G : core R) k Qs (e : R),
+  (0 <= e)%R -> cn G = 2 ^ S k -> 0 < cr1 G ->
+  calls_all OR (fun M U V => trunc_ok OR M U V /\ (res2 OR M U V <= e * e)%R) msvd G (S k) ->
+  core_tt_to_qtt OR msvd G = Ok Qs ->
+  (sqrt (core_err2 OR G Qs (S k)) <= sqrt (INR (S k)) * e)%R /\
+  (sqrt (cdist2 OR G (merged OR Qs)) <= sqrt (INR (S k)) * e)%R.
+Proof. exact core_tt_to_qtt_bound_proj. Qed.
+
+(* the MODEL of teneva.matrix_svd (Model/Svd.v) as the factorisation, the same e and r at every call as in
+   core_tt_to_qtt(G, e, r), for every eigh / argsort routine meeting their contracts, non-empty boundary ranks and a cap
+   above r1 * n (so it never binds): the run succeeds and the Frobenius distance is <= sqrt(d) e *)
+Theorem C17_core_tt_to_qtt_error_matrix_svd :
+  forall (eigh : nat -> mat R -> list R * mat R) (argsort : nat -> list R -> list nat),
+  (forall k C, msym C -> eigh_ok C (fst (eigh k C)) (snd (eigh k C))) ->
+  (forall k l, argsort_ok l (argsort k l)) ->
+  forall (G : core R) k (e : R) (rcap : Z), (0 <= e)%R -> cn G = 2 ^ S k -> 1 <= cr1 G -> 1 <= cr2 G ->
+  (Z.of_nat (cr1 G * cn G) < rcap)%Z ->
+  exists Qs, core_tt_to_qtt OR (fun c M => matrix_svd OR eigh argsort c M e rcap) G = Ok Qs /\
+    length Qs = S k /\ chain (cr1 G) Qs (cr2 G) /\ Forall (fun Q => cn Q = 2) Qs /\
+    (core_err2 OR G Qs (S k) <= INR (S k) * (e * e))%R /\
+    (sqrt (core_err2 OR G Qs (S k)) <= sqrt (INR (S k)) * e)%R /\
+    (sqrt (cdist2 OR G (merged OR Qs)) <= sqrt (INR (S k)) * e)%R.
+Proof. exact core_tt_to_qtt_matrix_svd. Qed.
+
+(* non-vacuity: trunc_ok is met, for every A, by the projection on the rows of any V with orthonormal rows; and a
+   concrete run over Qc on a 1 x 4 x 2 core in which both calls cut something (rows (3/5, 4/5) and (4/5, 3/5)):
+   residuals 51 and 229/5, squared error of the chain 484/5 = their sum *)
+Example C17_trunc_ok_example : forall T (K : ops T) (A V : mat T), mc V = mc A ->
+  (forall c c', c < mr V -> c' < mr V ->
+     bsum K (mc V) (fun t => omul K (mget K V c t) (mget K V c' t)) = if Nat.eqb c c' then o1 K else o0 K) ->
+  trunc_ok K A (mmul K A (mtrans K V)) V.
+Proof. intros T K A V. exact (trunc_ok_proj K A V). Qed.
+Example C17_trunc_error_example :
+  calls_all OQc (trunc_ok OQc) exsvd exG 2 /\
+  match core_tt_to_qtt OQc exsvd exG with
+  | Ok Qs => length Qs = 2 /\
+             Qcanon.this (core_err2 OQc exG Qs 2) = QArith_base.Qmake 484 5 /\
+             Qcanon.this (calls_res OQc exsvd exG 2) = QArith_base.Qmake 484 5 /\
+             Qcanon.this (calls_res OQc exsvd exG 1) = QArith_base.Qmake 51 1
+  | Err _ => False
+  end.
+Proof. exact trunc_example. Qed.
